@@ -214,6 +214,9 @@ type trSumAlt struct {
 
 // implementers: `var _ I = (*T)(nil)` in the package of the interface type
 func (t *trTranslator) implementers(n *types.Named) []trSumAlt {
+	if alts, ok := t.closedSumAlts(n); ok {
+		return alts // an interface with an unexported method: the types of its package (trans_units_tablerender.go)
+	}
 	p := t.l.pkgs[n.Obj().Pkg().Path()]
 	if p == nil {
 		return nil
@@ -255,6 +258,9 @@ func (t *trTranslator) implementers(n *types.Named) []trSumAlt {
 
 // needSumType: the declaration of an interface type with declared implementers
 func (t *trTranslator) needSumType(u *trUnit, n *types.Named, pos token.Pos) {
+	if t.closedSumDecl(u, n, pos) {
+		return // closed sum without `other` (trans_units_tablerender.go)
+	}
 	obj := n.Obj()
 	alts := t.implementers(n)
 	if len(alts) == 0 {
@@ -304,6 +310,9 @@ func (c *trCtx) typeSwitch(x *ast.TypeSwitchStmt, k trK) trLines {
 	}
 	if _, isIface := n.Underlying().(*types.Interface); !isIface {
 		trFail(x.Pos(), "type switch on %s is outside the subset", st)
+	}
+	if c.t.isClosedSum(n) {
+		return c.typeSwitchClosed(x, n, subj, bound, k) // (trans_units_tablerender.go)
 	}
 	lt := c.leanType(st, x.Pos())
 	alts := c.t.implementers(n)
